@@ -39,6 +39,9 @@ CHECKS.update({
  "C16": ("Generators run with symbolic parameters and probabilistic random stubs: per parameter cell (AllSAT over parameter-only branch atoms) the summed path probability of every ballot multiset must equal the documented law as a rational identity (name-PL, short-PL, name-Cumulative, slate-PL, name-BT, slate-BT, AlternatingCrossover given the split, IC); MCMC samplers via one-step kernels and detailed balance; alignment of names and probabilities in every np.random.choice; spatial models: every ballot ranks by increasing distance for every stream.", "§4 C16"),
  "C17": ("RandomDictator / BoostedRandomDictator seat-by-seat laws and uniformity of random tiebreak resolutions: cells over the weight space, summed path probabilities equal the closed forms as rational identities (z3), each cell additionally cross-validated by concretely enumerating the real code's random outcomes.", "§4 C17"),
 })
+CHECKS.update({
+ "C19": ("lp_dist with symbolic weights (float/np.zeros shadowed; x**(1/p) as constrained fresh variable): defining equality, symmetry, zero iff equal distributions, invariance under reordering/condensing/rescaling by a symbolic factor, triangle inequality for p=1 and 'inf' as z3 queries; BallotGraph(profile) node weights symbolic; BallotGraph(n) structure n=2..6 by direct evaluation (labelled, no symbolic input).", "§4 C19"),
+})
 NOT_APPLICABLE = {}
 def main():
     props = [json.loads(l)["id"] for l in open(os.path.join(ROOT, "properties.jsonl"))]
